@@ -287,17 +287,79 @@ def run(prog, rep):
     ring = [c for c in r["copies"] if c[0] == "to_ring"]
     if not ring:
         okw, msg = False, "write never copies into the ring"
-    for cp in ring:
-        conds = cp[4]
-        guarded = False
+    def space_guard(conds):
+        """Does the path establish free >= len?  free is the helper's result, or an inline linear expression over the
+        positions that equals the free space of the ordering established on the same path.  -> (guarded, note)"""
+        size_t_w = r["size_t"]
         for (c, t) in conds:
-            if c[0] == "cmp" and _mentions_call(c, HELPERS[0]) and term_mentions(c, lenp):
-                # free - len < 0 false   (or equivalent forms)
+            if c[0] != "cmp" or not term_mentions(c, lenp):
+                continue
+            if _mentions_call(c, HELPERS[0]):
                 v = order_of(c, ("call", HELPERS[0]), lenp)
                 if v is not None and ((v == "<" and not t) or (v == ">=" and t)):
-                    guarded = True
+                    return True, ""
+                continue
+            # inline: (X - len) op 0 with X linear in the header words and the size
+            diff = norm(("bin", "-", c[2], c[3]))
+            terms, const = symx._sum_terms(diff)
+            terms = symx._merge(terms)
+            co_len = sum(s_ for (s_, x) in terms if x == lenp)
+            if co_len not in (1, -1):
+                continue
+            sign = -co_len          # X - len  => coefficient of len is -1
+            rest = {}
+            okl = True
+            for (s_, x) in terms:
+                if x == lenp:
+                    continue
+                if isinstance(x, tuple) and x[0] == "hdr":
+                    if not x[3]:
+                        return False, "the free space is computed from a position loaded outside the lock"
+                    rest[("hdr", x[1])] = rest.get(("hdr", x[1]), 0) + s_ * sign
+                elif x == size_t_w:
+                    rest["size"] = rest.get("size", 0) + s_ * sign
+                else:
+                    okl = False
+            if not okl:
+                continue
+            rest[1] = const * sign
+            op = c[1] if sign == 1 else {"<": ">", ">": "<", "<=": ">=", ">=": "<="}.get(c[1], c[1])
+            establishes = (op == "<" and not t) or (op == ">=" and t)       # X >= len
+            if not establishes:
+                continue
+            # ordering known on this path?
+            for ordering in ("w<r", "w>r", "w==r"):
+                consistent = True
+                decided = False
+                for (c2, t2) in conds:
+                    c2n = _strip_hdr(c2)
+                    v2 = eval_order(c2n, ordering, r_t, w_t)
+                    if v2 is not None:
+                        decided = True
+                        if v2 != t2:
+                            consistent = False
+                if not consistent or not decided:
+                    continue
+                want = {"w<r": {r_t: 1, w_t: -1, 1: -1}, "w>r": {"size": 1, w_t: -1, r_t: 1, 1: -1}, "w==r": {"size": 1, 1: -1}}[ordering]
+                got = {k: v for k, v in rest.items() if v != 0}
+                wantn = {k: v for k, v in want.items() if v != 0}
+                if ordering == "w==r":
+                    # positions coincide: their coefficients may cancel
+                    got = dict(got)
+                    if got.get(r_t, 0) + got.get(w_t, 0) == 0:
+                        got.pop(r_t, None)
+                        got.pop(w_t, None)
+                if got != wantn:
+                    return False, "when %s the inline free-space expression is %s, the free space is %s: a write of exactly free+1 bytes is accepted and the queue becomes 'empty'" % (
+                        ordering, _fmt(got), _fmt(wantn))
+            return True, ""
+        return False, ""
+    for cp in ring:
+        conds = cp[4]
+        guarded, note = space_guard(conds)
         if not guarded:
-            okw, msg, where = False, "line %d: data is copied into the ring on a path where 'free space < len' was not tested false: a write that does not fit overwrites unread bytes" % cp[5], cp[5]
+            okw, where = False, cp[5]
+            msg = ("line %d: " % cp[5]) + (note or "data is copied into the ring on a path where 'free space < len' was not tested false: a write that does not fit overwrites unread bytes")
     for (st, stmt, cur) in r["rets"]:
         refused = any(c[0] == "cmp" and _mentions_call(c, HELPERS[0]) and ((order_of(c, ("call", HELPERS[0]), lenp) == "<" and t) or (order_of(c, ("call", HELPERS[0]), lenp) == ">=" and not t))
                       for (c, t) in st.conds)
@@ -466,6 +528,23 @@ def advance_of(inner):
     terms, const = symx._sum_terms(norm(inner))
     rest = [(s_, x) for (s_, x) in symx._merge(terms) if not (isinstance(x, tuple) and x[0] == "hdr")]
     return symx._mk_sum(rest, const)
+
+
+def _strip_hdr(t):
+    """('hdr', off, epoch, held) -> ('hdr', off) everywhere in a term"""
+    if isinstance(t, tuple):
+        if t[0] == "hdr":
+            return ("hdr", t[1])
+        return tuple(_strip_hdr(x) for x in t)
+    return t
+
+
+def _fmt(d):
+    parts = []
+    for k, v in sorted(d.items(), key=lambda kv: str(kv[0])):
+        name = "1" if k == 1 else ("size" if k == "size" else ("pos@%s" % symx.show(k[1])))
+        parts.append("%+d*%s" % (v, name))
+    return " ".join(parts) or "0"
 
 
 def _sum(ts):
@@ -645,6 +724,12 @@ SELFTEST = [
          old="\t\tpsize first_part_size = buf->size - start_pos;", new="\t\tpsize first_part_size = buf->size - start_pos - 1;"),
     dict(id="contiguity-test-too-wide", file="src/pshmbuffer.c", expect="C08.6",
          old="\tif (start_pos + len <= buf->size) {", new="\tif (start_pos + len <= buf->size + 1) {"),
+    dict(id="write-inline-free-space-neutral", file="src/pshmbuffer.c", expect=None,
+         old="\tif (pp_shm_buffer_get_free_space (buf) < len) {",
+         new="\tif ((write_pos >= read_pos ? buf->size - (write_pos - read_pos) - 1 : read_pos - write_pos - 1) < len) {"),
+    dict(id="write-inline-free-space-off-by-one", file="src/pshmbuffer.c", expect="C08.3",
+         old="\tif (pp_shm_buffer_get_free_space (buf) < len) {",
+         new="\tif ((write_pos >= read_pos ? buf->size - (write_pos - read_pos) - 1 : read_pos - write_pos) < len) {"),
     dict(id="contiguity-strict-neutral", file="src/pshmbuffer.c", expect=None,
          old="\tif (start_pos + len <= buf->size) {", new="\tif (start_pos + len < buf->size) {"),
     dict(id="modulus-from-argument", file="src/pshmbuffer.c", expect="C08.4",
